@@ -38,7 +38,7 @@ class C05(Check):
     RULE += PRELUDE_RULE
     ASSUMPTIONS = ['the order in which ONE source item is delivered to several simultaneously open windows is not constrained (the suite pins slot order, the property does not)']
     ANCHORS = ['rxsci/data/roll.py', 'rxsci/operators/multiplex.py']
-    REQUIRED_TAGS = ['top', 'group', 'roll', 'roll_eq', 'split', 'w<s', 'w=s', 'w>s', 'w%s!=0', 'n=0', 'n<w', 'ring-wrapped', 'w>256', 'numpy-typed-parameters', 'operator-object-used-in-two-pipelines', 'stride-sweep'] + PRELUDE_TAGS + ['prelude:overlap']
+    REQUIRED_TAGS = ['top', 'group', 'roll', 'roll_eq', 'split', 'w<s', 'w=s', 'w>s', 'w%s!=0', 'n=0', 'n<w', 'ring-wrapped', 'w>256', 'numpy-typed-parameters', 'operator-object-used-in-two-pipelines', 'stride-sweep', 'consumer-runs-a-pipeline-built-with-the-same-operator-object'] + ['history-fed-more-than-the-judged-stream'] + PRELUDE_TAGS + ['prelude:overlap']
     REQUIRED_OBSERVED = ['child_lifetimes_checked', 'parent_lifetimes_checked', 'partial_windows_flushed']
 
     def generate(self, rng, tier, shard, nshards):
@@ -55,11 +55,12 @@ class C05(Check):
                 w_ = 2 * s_ if s_ % 2 else s_ + 11
                 yield {'w': w_, 's': s_, 'parent': 'top' if s_ % 3 else 'group', 'parent_node': None if s_ % 3 else ['group_by', 'mod:2', None],
                        'items': list(range(int(2.2 * s_) + 3)) if s_ % 3 else list(range(int(4.4 * s_) + 6)), 'stride_sweep': True}
+            r2 = random.Random(rng.randrange(1 << 30))      # (drawn, not `n % k`: the case order cycles through the contexts with small periods)
             for n, c in enumerate(cases):
-                if n % 6 == 4 and not c.get('np_params'):
+                if r2.random() < 1 / 6 and not c.get('np_params'):
                     c = dict(c, reuse=True)
-                if n % 5 == 3:
-                    c = dict(c, np_params=('int64', 'int32', 'int8', 'uint8', 'int16')[(n // 5) % 5])
+                if r2.random() < 1 / 5:
+                    c = dict(c, np_params=r2.choice(('int64', 'int32', 'int8', 'uint8', 'int16')))
                 yield c
         return with_prelude(npp(self._generate(rng, tier, shard, nshards)), rng, overlap=True)
 
@@ -150,6 +151,9 @@ class C05(Check):
                     f['mech'] = 'roll-partial-windows-flushed-in-slot-order'
                 return out
         out.observed['events_logged'] += len(ob.log)
+        if case['parent'] == 'top' and not case.get('np_params') and n <= 150 and not out.failures:
+            out.tags.append('consumer-runs-a-pipeline-built-with-the-same-operator-object')
+            windows.nested_consumer(['roll', w, s, None], items, [v + 1000 for v in items[:(n * 2) // 3 + 1]], out, 'roll')
         return out
 
     box_done = 0
